@@ -66,6 +66,7 @@ def run(ctx):
     if rc != 0:
         ctx.tie_failures.append("driver model c01 failed: " + err[-200:])
         return
+    L.monitor_accepts_model(ctx, "c01", model)
     diffs = L.diff_cases(impl, model)
     if diffs:
         d = diffs[0]
